@@ -79,6 +79,11 @@ func runProp(t *testing.T, ps propSpec) {
 		return
 	}
 
+	if ps.id == "C44" {
+		// first in the process: the trigger names of this sub-check must
+		// not have been referenced before
+		runLateDef(t, rec)
+	}
 	rt.Check(t, rec, "modeD", ps.quick, ps.thorough, func(t *rapid.T) {
 		prog := Draw(t, ps.opts)
 		v, st := RunProgram(prog, cfg)
